@@ -8,7 +8,7 @@
      wrap w z  : z mod 2^w
    Every theorem quantifies over all widths 1..64 and all operands. *)
 From Coq Require Import ZArith.
-From CrabV Require Import Num.Wrapint Num.WrapintSound.
+From CrabV Require Import Num.Wrapint Num.WrapintSound Scalar.WrappedItv Scalar.WrappedItvSound.
 Local Open Scope Z_scope.
 
 (* ---- constructors, conversions from and to big integers *)
@@ -180,6 +180,124 @@ Theorem C13_wi_keep_lower : forall a k, wf a -> 0 <= k ->
   end.
 Proof. exact wkeep_lower_spec. Qed.
 
+
+(* ==================================================================================
+   Part 2: crab::domains::wrapped_interval<z_number>.  Model Scalar/WrappedItv.v (mirror of
+   wrapped_interval_impl.hpp and lib/wrapped_interval.cpp with the repairs fixes/wrapint-5..8),
+   proofs Scalar/WrappedItvSound.v.
+     wfw w x     : x is a well-formed wrapint of bitwidth w
+     iwf w i     : i is bottom, top, or has two bounds of bitwidth w
+     gamma w i x : the w-bit number x is a member of i (wi_at = the model of at())
+   Every theorem quantifies over all bitwidths 1..64, all intervals (bottom, top, across the
+   north pole 01..1 -> 10..0 and the south pole 1..1 -> 0..0) and all members.  The result of
+   the concrete operation is the wrapint operation of part 1. *)
+
+(* ---- membership *)
+Theorem C13_wv_membership : forall w s e v, wfw w s -> wfw w e -> wfw w v ->
+  (gamma w (wi_mk s e) v <-> (wn v - wn s) mod 2 ^ w <= (wn e - wn s) mod 2 ^ w).
+Proof. exact gamma_mk_iff. Qed.
+Theorem C13_wv_bottom : forall w v, ~ gamma w wi_bottom v.
+Proof. exact gamma_bottom_empty. Qed.
+Theorem C13_wv_top : forall w v, wfw w v -> gamma w wi_top v.
+Proof. exact gamma_top_all. Qed.
+Theorem C13_wv_singleton : forall w n, wfw w n -> gamma w (wi_single n) n.
+Proof. exact singleton_sound. Qed.
+Theorem C13_wv_mk_winterval : forall n w r, mk_winterval1 n w = Some r ->
+  forall x, of_z n w = Some x -> gamma w r x.
+Proof. exact mk_winterval1_sound. Qed.
+
+(* ---- order and lattice operations *)
+Theorem C13_wv_leq : forall w a x v, iwf w a -> iwf w x -> wi_leq a x = true -> gamma w a v -> gamma w x v.
+Proof. exact leq_sound. Qed.
+Theorem C13_wv_eq : forall w a x v, iwf w a -> iwf w x -> wi_eq a x = true -> (gamma w a v <-> gamma w x v).
+Proof. exact eq_sound. Qed.
+Theorem C13_wv_join : forall w a x v, iwf w a -> iwf w x -> gamma w a v \/ gamma w x v -> gamma w (wi_join a x) v.
+Proof. exact join_sound. Qed.
+Theorem C13_wv_meet : forall w a x v, iwf w a -> iwf w x -> gamma w a v -> gamma w x v -> gamma w (wi_meet a x) v.
+Proof. exact meet_sound. Qed.
+Theorem C13_wv_widen : forall w a x r v, iwf w a -> iwf w x -> wi_widen a x = Some r ->
+  gamma w a v \/ gamma w x v -> gamma w r v.
+Proof. exact widen_sound. Qed.
+
+(* ---- arithmetic *)
+Theorem C13_wv_add : forall w a x v y, iwf w a -> iwf w x -> gamma w a v -> gamma w x y ->
+  gamma w (wi_add a x) (wadd v y).
+Proof. exact add_sound. Qed.
+Theorem C13_wv_sub : forall w a x v y, iwf w a -> iwf w x -> gamma w a v -> gamma w x y ->
+  gamma w (wi_sub a x) (wsub v y).
+Proof. exact sub_sound. Qed.
+Theorem C13_wv_neg : forall w a v, iwf w a -> gamma w a v -> gamma w (wi_neg a) (wneg v).
+Proof. exact neg_sound. Qed.
+Theorem C13_wv_mul : forall w a x v y, iwf w a -> iwf w x -> gamma w a v -> gamma w x y ->
+  exists r, wi_mul a x = Some r /\ iwf w r /\ gamma w r (wmul v y).
+Proof. exact mul_sound. Qed.
+Theorem C13_wv_sdiv : forall w a x v y, iwf w a -> iwf w x -> gamma w a v -> gamma w x y -> wn y <> 0 ->
+  exists q r, wi_sdiv a x = Some q /\ iwf w q /\ wsdiv v y = Some r /\ gamma w q r.
+Proof. exact sdiv_sound. Qed.
+Theorem C13_wv_udiv : forall w a x v y, iwf w a -> iwf w x -> gamma w a v -> gamma w x y -> wn y <> 0 ->
+  exists q r, wi_udiv a x = Some q /\ iwf w q /\ wudiv v y = Some r /\ gamma w q r.
+Proof. exact udiv_sound. Qed.
+(* SRem, URem, And, Or, Xor all return default_implementation: any w-bit result is a member *)
+Theorem C13_wv_default_ops : forall w a x v y r, gamma w a v -> gamma w x y -> wfw w r ->
+  gamma w (default_implementation a x) r.
+Proof. exact default_sound. Qed.
+
+(* ---- shifts by an interval (only singletons are precise), amounts below 64 *)
+Theorem C13_wv_lshr : forall w a x v kk, iwf w a -> iwf w x -> gamma w a v -> gamma w x kk -> wn kk < 64 ->
+  exists q r, wi_lshr a x = Some q /\ iwf w q /\ wlshr v kk = Some r /\ gamma w q r.
+Proof. exact lshr_sound. Qed.
+Theorem C13_wv_ashr : forall w a x v kk, iwf w a -> iwf w x -> gamma w a v -> gamma w x kk -> wn kk < 64 ->
+  exists q r, wi_ashr a x = Some q /\ iwf w q /\ washr v kk = Some r /\ gamma w q r.
+Proof. exact ashr_sound. Qed.
+(* full statement for Shl; proved for amounts 1..63 (amount 0 goes through Trunc(bitwidth)) *)
+Definition C13_wv_shl_statement : Prop :=
+  forall w a x v kk, iwf w a -> iwf w x -> gamma w a v -> gamma w x kk -> 0 <= wn kk < 64 ->
+  exists q r, wi_shl a x = Some q /\ iwf w q /\ wshl v kk = Some r /\ gamma w q r.
+Theorem C13_wv_shl_partial : forall w a x v kk, iwf w a -> iwf w x -> gamma w a v -> gamma w x kk ->
+  1 <= wn kk < 64 ->
+  exists q r, wi_shl a x = Some q /\ iwf w q /\ wshl v kk = Some r /\ gamma w q r.
+Proof. exact shl_sound. Qed.
+
+(* ---- casts *)
+Theorem C13_wv_zext : forall w i k v, iwf w i -> is_top i = false -> gamma w i v -> 0 <= k -> w + k <= 64 ->
+  exists q r, wi_zext i k = Some q /\ iwf (w + k) q /\ wzext v k = Some r /\ gamma (w + k) q r.
+Proof. exact zext_sound. Qed.
+Theorem C13_wv_sext : forall w i k v, iwf w i -> is_top i = false -> gamma w i v -> 0 <= k -> w + k <= 64 ->
+  exists q r, wi_sext i k = Some q /\ iwf (w + k) q /\ wsext v k = Some r /\ gamma (w + k) q r.
+Proof. exact sext_sound. Qed.
+(* full statement for Trunc; proved for a strict truncation (bits_to_keep < bitwidth) *)
+Definition C13_wv_trunc_statement : Prop :=
+  forall w i k v, iwf w i -> gamma w i v -> 1 <= k <= w -> k < 64 ->
+  exists q r, wi_trunc i k = Some q /\ wkeep_lower v k = Some r /\ gamma k q r.
+Theorem C13_wv_trunc_partial : forall w i k v, iwf w i -> gamma w i v -> 1 <= k < w ->
+  exists q r, wi_trunc i k = Some q /\ iwf k q /\ wkeep_lower v k = Some r /\ gamma k q r.
+Proof. exact trunc_sound. Qed.
+
+(* ---- conversion to a signed interval, half lines, removal of a bound *)
+Theorem C13_wv_to_interval : forall w i v, iwf w i -> gamma w i v ->
+  match wi_to_interval i with
+  | Some IVBot => False
+  | Some IVTop => True
+  | Some (IVRange l u) => l <= to_sZ v <= u
+  | None => False
+  end.
+Proof. exact to_interval_sound. Qed.
+Theorem C13_wv_lower_half_line_signed : forall w i v u, iwf w i -> gamma w i v -> wfw w u ->
+  to_sZ u <= to_sZ v -> gamma w (wi_lower_half_line i true) u.
+Proof. exact lower_half_line_signed_sound. Qed.
+Theorem C13_wv_lower_half_line_unsigned : forall w i v u, iwf w i -> gamma w i v -> wfw w u ->
+  wn u <= wn v -> gamma w (wi_lower_half_line i false) u.
+Proof. exact lower_half_line_unsigned_sound. Qed.
+Theorem C13_wv_upper_half_line_signed : forall w i v u, iwf w i -> gamma w i v -> wfw w u ->
+  to_sZ v <= to_sZ u -> gamma w (wi_upper_half_line i true) u.
+Proof. exact upper_half_line_signed_sound. Qed.
+Theorem C13_wv_upper_half_line_unsigned : forall w i v u, iwf w i -> gamma w i v -> wfw w u ->
+  wn v <= wn u -> gamma w (wi_upper_half_line i false) u.
+Proof. exact upper_half_line_unsigned_sound. Qed.
+Theorem C13_wv_trim_interval : forall w i j v c, iwf w i -> iwf w j -> gamma w i v -> gamma w j c ->
+  v <> c -> gamma w (wi_trim_interval i j) v.
+Proof. exact trim_interval_sound. Qed.
+
 Print Assumptions C13_wi_of_u64.
 Print Assumptions C13_wi_of_z.
 Print Assumptions C13_wi_q_round_to_upper.
@@ -225,3 +343,32 @@ Print Assumptions C13_wi_ashr.
 Print Assumptions C13_wi_sext.
 Print Assumptions C13_wi_zext.
 Print Assumptions C13_wi_keep_lower.
+Print Assumptions C13_wv_membership.
+Print Assumptions C13_wv_bottom.
+Print Assumptions C13_wv_top.
+Print Assumptions C13_wv_singleton.
+Print Assumptions C13_wv_mk_winterval.
+Print Assumptions C13_wv_leq.
+Print Assumptions C13_wv_eq.
+Print Assumptions C13_wv_join.
+Print Assumptions C13_wv_meet.
+Print Assumptions C13_wv_widen.
+Print Assumptions C13_wv_add.
+Print Assumptions C13_wv_sub.
+Print Assumptions C13_wv_neg.
+Print Assumptions C13_wv_mul.
+Print Assumptions C13_wv_sdiv.
+Print Assumptions C13_wv_udiv.
+Print Assumptions C13_wv_default_ops.
+Print Assumptions C13_wv_lshr.
+Print Assumptions C13_wv_ashr.
+Print Assumptions C13_wv_shl_partial.
+Print Assumptions C13_wv_zext.
+Print Assumptions C13_wv_sext.
+Print Assumptions C13_wv_trunc_partial.
+Print Assumptions C13_wv_to_interval.
+Print Assumptions C13_wv_lower_half_line_signed.
+Print Assumptions C13_wv_lower_half_line_unsigned.
+Print Assumptions C13_wv_upper_half_line_signed.
+Print Assumptions C13_wv_upper_half_line_unsigned.
+Print Assumptions C13_wv_trim_interval.
